@@ -86,6 +86,8 @@ type Options struct {
 	// Inject is called before each statement of a function body with (unit index,
 	// statement ordinal in that body); it may issue extra builder operations (faults).
 	Inject func(c *Compiler, unit, stmt int, depth int)
+	// AfterBody is called after each function body has been compiled.
+	AfterBody func(c *Compiler)
 	// InjectExpr is called after an operand of a call has been pushed.
 	InjectExpr func(c *Compiler, unit int)
 }
